@@ -86,6 +86,16 @@ def lib_roots(st):
     if st.kind == 'tri' and st.nt <= 4:
         from skfem import MeshLine
         snap(m * MeshLine(np.array([0, 1, 2.5])), '*MeshLine')
+        # a single layer (caps are never shared, so every local rotation of a prism is a legal state) and the
+        # extrusions of the relabelled triangle meshes in which vertex v carries the lowest label, i.e. is the
+        # first local vertex of every prism cap it belongs to
+        snap(m * MeshLine(np.array([0, 1.5])), '*MeshLine(1 layer)')
+        for v in range(1, st.nv):
+            perm = np.arange(st.nv)
+            perm[[0, v]] = [v, 0]
+            inv = np.argsort(perm)
+            mv = type(m)(m.p[:, perm], inv[m.t])
+            snap(mv * MeshLine(np.array([0, 1, 2.5])), f'relabel(0<->{v})*MeshLine')
     if st.kind == 'line':
         from skfem import MeshLine
         snap(m * MeshLine(np.array([0, .5, 2.])), '*MeshLine')
@@ -122,10 +132,29 @@ def work(item, tier, seed):
     return out
 
 
+ORDER2 = {'MeshTri1': 'MeshTri2', 'MeshQuad1': 'MeshQuad2', 'MeshTet1': 'MeshTet2', 'MeshHex1': 'MeshHex2'}
+
+
 def check_state(st, out):
     m = st.build()
+    ok = check_mesh(st, m, st.cls, out)
+    if ok and st.cls in ORDER2:
+        # the second-order class of the same cell list: extra geometry nodes, identical connectivity claims
+        import skfem
+        try:
+            m2 = getattr(skfem, ORDER2[st.cls]).from_mesh(m)
+        except Exception as e:
+            out.violation(f"C11|{ORDER2[st.cls]}|from_mesh-exception", f"{e!r} [history {list(st.hist)}]", case=st.describe())
+            return
+        if not np.array_equal(m2.t, m.t):
+            out.count('order2_twin_renumbered')
+            return
+        check_mesh(st, m2, ORDER2[st.cls], out)
+        out.count('order2_twins_checked')
+
+
+def check_mesh(st, m, cls, out):
     kind = st.kind
-    cls = st.cls
     T = Topo(kind, m.t)           # model from the mesh's own cell list (after constructor normalisation)
     ref = REF[kind]
 
@@ -148,26 +177,26 @@ def check_state(st, out):
             if dupf and all(len(rep.get(f, ())) > 1 for f in dupf):
                 cause = '|shared-cap-listed-from-different-vertex'
         bad('facets-duplicate' + cause, "a facet appears twice in mesh.facets")
-        return
+        return False
     if set(fsets) != set(T.facet_cells):
         bad('facets-set', f"mesh.facets differ from the facets spanned by cells: extra "
             f"{sorted(map(sorted, set(fsets) - set(T.facet_cells)))[:3]} missing "
             f"{sorted(map(sorted, set(T.facet_cells) - set(fsets)))[:3]}")
-        return
+        return False
     if any(len(cs) > 2 for cs in T.facet_cells.values()):
         out.count('nonmanifold_states_skipped')
-        return
+        return False
     # 2. t2f slot-exact
     t2f = m.t2f
     if t2f.shape != (len(ref['facets']), T.nt):
         bad('t2f-shape', f"t2f shape {t2f.shape}")
-        return
+        return False
     for c in range(T.nt):
         for k in range(t2f.shape[0]):
             if fsets[t2f[k, c]] != T.cell_facets[c][k]:
                 bad('t2f-slot', f"t2f[{k},{c}] names facet {sorted(fsets[t2f[k, c]])} but local facet {k} of cell "
                     f"{c} spans {sorted(T.cell_facets[c][k])}")
-                return
+                return False
     # hexahedra / prisms: facet columns keep a cyclic vertex order (consecutive entries are edges)
     if kind == 'hex':
         for j in range(facets.shape[1]):
@@ -177,7 +206,7 @@ def check_state(st, out):
                     e = frozenset((col[i], col[(i + 1) % 4]))
                     if e not in T.edge_cells:
                         bad('facets-cyclic-order', f"facet column {col} is not a cyclic walk along edges")
-                        return
+                        return False
     # 3. edges, t2e
     if ref['edges'] is not None:
         edges = m.edges
@@ -186,14 +215,14 @@ def check_state(st, out):
             bad('edges-duplicate', "an edge appears twice")
         if set(esets) != set(T.edge_cells):
             bad('edges-set', "mesh.edges differ from the edges spanned by cells")
-            return
+            return False
         t2e = m.t2e
         for c in range(T.nt):
             for k in range(t2e.shape[0]):
                 if esets[t2e[k, c]] != T.cell_edges[c][k]:
                     bad('t2e-slot', f"t2e[{k},{c}] names edge {sorted(esets[t2e[k, c]])} but local edge {k} of "
                         f"cell {c} spans {sorted(T.cell_edges[c][k])}")
-                    return
+                    return False
     else:
         if m.edges is not None and kind != 'line' and False:
             pass
@@ -201,16 +230,16 @@ def check_state(st, out):
     f2t = m.f2t
     if f2t.shape != (2, len(fsets)):
         bad('f2t-shape', f"f2t shape {f2t.shape}")
-        return
+        return False
     for j, f in enumerate(fsets):
         want = set(T.facet_cells[f])
         got = [int(f2t[0, j]), int(f2t[1, j])]
         if got[0] == -1 or got[0] == got[1]:
             bad('f2t-first', f"f2t[:, {j}] = {got}")
-            return
+            return False
         if set(g for g in got if g != -1) != want or (len(want) == 1) != (got[1] == -1):
             bad('f2t-neighbours', f"f2t[:, {j}] = {got} but facet {sorted(f)} lies in cells {sorted(want)}")
-            return
+            return False
     # 5. boundary / interior partitions
     bf = set(int(j) for j in m.boundary_facets())
     wantbf = {j for j, f in enumerate(fsets) if len(T.facet_cells[f]) == 1}
@@ -221,8 +250,8 @@ def check_state(st, out):
     wantbn = T.boundary_vertices()
     if bn != wantbn:
         bad('boundary_nodes', f"boundary_nodes() = {sorted(bn)} expected {sorted(wantbn)}")
-    allv = set(range(m.p.shape[1]))
-    if (bn | inn) != allv or (bn & inn):
+    allv = set(range(int(m.t.max()) + 1 if cls in ORDER2.values() else m.p.shape[1]))    # vertices; the extra geometry nodes of second-order classes are not judged
+    if ((bn | inn) & allv) != allv or (bn & inn):
         bad('nodes-partition', "boundary_nodes and interior_nodes do not partition the vertices")
     if ref['edges'] is not None:
         wantbe = T.boundary_edges()
@@ -250,7 +279,7 @@ def check_state(st, out):
                     if esets[f2e[k, j]] != want[k]:
                         bad('f2e-slot', f"f2e[{k},{j}] names edge {sorted(esets[f2e[k, j]])}, facet {col} local "
                             f"edge {k} is {sorted(want[k])}")
-                        return
+                        return False
     # 7. incidence matrices
     nvert = int(m.t.max()) + 1
 
@@ -274,6 +303,7 @@ def check_state(st, out):
     if nint > 0:
         out.nt(st.key())
     out.outcome((cls, len(fsets), len(wantbf), nint))
+    return True
 
 
 def replay(rec, tier, seed):
